@@ -18,6 +18,11 @@ Replayed on the real Redis processor against simulated nodes with scripted SCAN 
 * every configuration once more with every forwarded call completed inside the window (the completing goroutine is
   parked at the hook right after the publication until the client has the reply);
 * every host set history of the Gen_ScanHosts bound (OnSvcHostRemove on the running processor, saved cursor, fresh iteration);
+* free running (c18-concurrent): iterations while a goroutine announces stored hosts again through OnSvcHostAdd (Reannounce:
+  the host set is unchanged, every iteration is judged like a replayed configuration; ReannounceRule "remove-then-add" must
+  violate ExactCalls) and pipelined SCAN calls with cursors of every node index while hosts are removed and added (Withdraw
+  between ReadHosts and Dispatch; HostReads "twice" must violate ResumeSafe): the process stays alive, every array reply is the
+  terminal reply or a page of one node;
 plus the cursor codec on all boundaries (white box), client supplied cursors (past the end, negative, non numeric,
 out of range; with two hosts and with no host) and iterations over real key spaces with random COUNT.
 A death of the process hosting the proxy is a violation (the property says: the terminal reply rather than a crash).
@@ -32,12 +37,15 @@ LEVEL = "model_checking"
 
 INVS = ["BoundedCalls", "ExactCalls", "EachNodeOnceInOrder", "InOrder", "CursorRoundTrip", "PastEndIsTerminal", "NoCrash",
         "DeliveredComposite", "ResumeSafe"]
-WINDOWS = ["NoHosts", "AllWithdrawnMidIteration", "WriterMayEncodeWhilePublisherRuns"]
+WINDOWS = ["NoHosts", "AllWithdrawnMidIteration", "WriterMayEncodeWhilePublisherRuns", "WithdrawnBetweenReadAndDispatch"]
 
 
-def model_checking(ctx):
-    """exhaustive runs, anti-vacuity runs and the two generators, side by side"""
-    jobs = [("mc", "Scan", "MC_Scan_quick.cfg", None)]
+def model_checking(ctx, ex):
+    """exhaustive runs, anti-vacuity runs and the generators, side by side; returns (generator results by cfg, futures of
+    the other runs) - the replays start as soon as the generators are through"""
+    jobs = [("mc", "Scan", "MC_Scan_quick.cfg", None),
+            # withdrawals between ReadHosts and Dispatch of a call: 0..2 hosts (quick), 0..3 hosts (thorough)
+            ("mc", "Scan", "MC_Scan_concurrent.cfg" if ctx.thorough else "MC_Scan_concurrent_quick.cfg", None)]
     if ctx.thorough:
         jobs.append(("mc", "Scan", "MC_Scan.cfg", None))
     # the broken variants of the constants must violate their invariants (the mechanism is in the model)
@@ -45,11 +53,13 @@ def model_checking(ctx):
     jobs.append(("mc", "Scan", "MC_Scan_pastend_wraps_withdrawn.cfg", ["ResumeSafe"]))
     jobs.append(("mc", "Scan", "MC_Scan_publish_first.cfg", ["DeliveredComposite"]))
     jobs.append(("mc", "Scan", "MC_Scan_publish_first_iter.cfg", ["ExactCalls", "EachNodeOnceInOrder", "BoundedCalls"]))
+    jobs.append(("mc", "Scan", "MC_Scan_hosts_read_twice.cfg", ["ResumeSafe", "NoCrash"]))
+    jobs.append(("mc", "Scan", "MC_Scan_reannounce_gap.cfg", ["ExactCalls", "EachNodeOnceInOrder"]))
     # the windows must be reachable with the constants of the code
     for w in WINDOWS:
         jobs.append(("mc", "Scan", "MC_Scan_window_%s.cfg" % w, ["NotW_" + w]))
-    jobs.append(("gen", "ScanGen", "Gen_Scan_full.cfg" if ctx.thorough else "Gen_Scan_quick.cfg", None))
-    jobs.append(("gen", "ScanGen", "Gen_ScanHosts_full.cfg" if ctx.thorough else "Gen_ScanHosts_quick.cfg", None))
+    gens = [("gen", "ScanGen", "Gen_Scan_full.cfg" if ctx.thorough else "Gen_Scan_quick.cfg", None),
+            ("gen", "ScanGen", "Gen_ScanHosts_full.cfg" if ctx.thorough else "Gen_ScanHosts_quick.cfg", None)]
 
     def one(j):
         kind, mod, cfg, exp = j
@@ -57,15 +67,15 @@ def model_checking(ctx):
             return ctx.tlc("redis", mod, cfg, mode="mc", workers=1, timeout=900, deadlock=False)
         return ctx.mc("redis", mod, cfg, expect_violated=exp, count=exp is None, workers=4 if exp is None else 1, timeout=900)
 
-    with cf.ThreadPoolExecutor(max_workers=6) as ex:
-        res = list(ex.map(one, jobs))
+    gf = [ex.submit(one, j) for j in gens]
+    rest = [ex.submit(one, j) for j in jobs]
     out = {}
-    for (kind, mod, cfg, exp), r in zip(jobs, res):
-        if kind == "gen":
-            if r.timeout or r.error:
-                raise kit.Inconclusive("TLC %s %s: %s" % (mod, cfg, r.error[:500]))
-            out[cfg] = r
-    return out
+    for (kind, mod, cfg, exp), f in zip(gens, gf):
+        r = f.result()
+        if r.timeout or r.error:
+            raise kit.Inconclusive("TLC %s %s: %s" % (mod, cfg, r.error[:500]))
+        out[cfg] = r
+    return out, rest
 
 
 def panic_line(se):
@@ -84,26 +94,27 @@ def drive(ctx, sub, infile, outfile, n_items, extra=(), timeout=3000):
             os.remove(part)
         rc, so, se = ctx.harness([sub, "-in", infile, "-out", part, "-from", str(start)] + list(extra), timeout=timeout, allow_fail=True)
         recs = kit.read_ndjson(part) if os.path.exists(part) else []
-        begun = None
+        begun, case = None, ""
         for r in recs:
             if "begin" in r:
-                begun = r["begin"]
+                begun, case = r["begin"], r.get("case", "")
             else:
                 results[r["id"]] = r
                 begun = None
         if rc == 0:
-            start = n_items + 1
+            start = None
             break
         if "panic:" in se and ("samaritan/proc/redis" in se or "samaritan/host" in se) and begun is not None:
-            crashes.append((begun, panic_line(se), se[-2500:]))
+            crashes.append((begun, panic_line(se), se[-2500:], case))
             start = begun + 1
-            if start > n_items:
+            if n_items is not None and start > n_items:
+                start = None
                 break
             continue
         raise kit.Inconclusive("%s exited %d: %s" % (sub, rc, se[-1500:]))
-    if start <= n_items:
-        ctx.notes.append("%s %s: the process hosting the proxy died %d times, cases %d..%d were not replayed" % (sub, " ".join(extra), len(crashes), start, n_items))
-    return results, crashes, start
+    if start is not None:
+        ctx.notes.append("%s %s: the process hosting the proxy died %d times, cases from %d on were not replayed" % (sub, " ".join(extra), len(crashes), start))
+    return results, crashes, (start if start is not None else 10 ** 9)
 
 
 def kind_of(b):
@@ -120,7 +131,7 @@ def judge_replay(ctx, cfgs, run, mode):
     """mode: "" (free running) or "writer-first" (every forwarded call completed inside the window)"""
     prefix = "scan/" + (mode + "/" if mode else "")
     results, crashes, stop = run
-    for cid, pl, se in crashes:
+    for cid, pl, se, case in crashes:
         cfg = cfgs[cid - 1]
         ctx.violation("%scrash/%dnodes" % (prefix, len(cfg["nodes"])),
                       "the process hosting the proxy died during a SCAN iteration over %d healthy hosts (%s)" % (len(cfg["nodes"]), pl),
@@ -144,12 +155,58 @@ def judge_replay(ctx, cfgs, run, mode):
     return windows
 
 
+def concurrent(ctx, cfile):
+    args = ["-reps", "6", "-configs", "1500", "-rounds", "12", "-round-ms", "1000"] if ctx.thorough else \
+           ["-reps", "3", "-configs", "300", "-rounds", "6", "-round-ms", "400"]
+    results, crashes, stop = drive(ctx, "c18-concurrent", cfile, os.path.join(ctx.work, "concurrent.ndjson"), None, extra=args)
+    for cid, pl, se, case in crashes:
+        ctx.violation("scan/%s/crash" % ("reannounce" if case.startswith("reannounce") else "withdraw-during-call"),
+                      "the process hosting the proxy died while SCAN calls and host changes ran concurrently, case %d: %s (%s)" % (cid, case, pl),
+                      {"case": case, "stderr": se})
+    iters = changes = calls = rounds = 0
+    for cid in sorted(results):
+        r = results[cid]
+        if r.get("err"):
+            raise kit.Inconclusive("c18-concurrent: " + r["err"])
+        if r["stratum"] == "reannounce":
+            iters += r["iterations"]
+            changes += r["changes"]
+            ctx.case(key=["reannounce", cid, r["nodes"]], nontrivial=True, n=r["calls"])
+            if r["bad_count"]:
+                ctx.violation("scan/reannounce/%dnodes" % r["nodes"],
+                              "%d of %d iterations over an unchanged set of %d hosts deviate while stored hosts are announced again (%d announcements): %s"
+                              % (r["bad_count"], r["iterations"], r["nodes"], r["changes"], "; ".join(r["bad"][:4])), r)
+            else:
+                ctx.cov["traces_validated_against_impl"] += r["iterations"]
+        else:
+            rounds += 1
+            calls += r["calls"]
+            ctx.case(key=["withdraw-during-call", cid, r["nodes"], r["victim"]], nontrivial=True, n=r["calls"])
+            if r["bad_count"]:
+                ctx.violation("scan/withdraw-during-call/invalid-reply",
+                              "%d of %d replies are neither the terminal reply nor a page of one node while hosts are withdrawn and added (%s of %d): %s"
+                              % (r["bad_count"], r["calls"], r["victim"], r["nodes"], "; ".join(r["bad"][:4])), r)
+    ctx.cov["concurrent"] = {"reannounce_iterations": iters, "announcements": changes, "withdraw_rounds": rounds, "calls_during_withdrawals": calls}
+    if not ctx.violations:
+        if iters < 300 or changes < 20 * iters:
+            raise kit.Inconclusive("re-announcement stratum too thin: %d iterations, %d announcements" % (iters, changes))
+        if rounds < 6 or calls < 20000:
+            raise kit.Inconclusive("concurrent withdrawal stratum too thin: %d rounds, %d calls" % (rounds, calls))
+
+
 def run(ctx):
     ctx.build()
     ctx.assumptions += ["node cursors are symbolic in the model (Base stands for 2^48, IdxSpace for 2^16); the replayer maps them to the concrete boundary values",
                         "the set of backend nodes does not change during an iteration (as the statement says); a cursor saved before hosts were withdrawn "
                         "is a client supplied cursor for the new host list"]
-    gens = model_checking(ctx)
+    with cf.ThreadPoolExecutor(max_workers=6) as ex:
+        gens, rest = model_checking(ctx, ex)
+        replays(ctx, gens)
+        for f in rest:
+            f.result()      # raises Inconclusive when a run is not as expected
+
+
+def replays(ctx, gens):
     g = gens["Gen_Scan_full.cfg" if ctx.thorough else "Gen_Scan_quick.cfg"]
     cfgs = [p for (tag, p) in g.prints if tag == "SCAN"]
     if len(cfgs) < 200:
@@ -188,7 +245,7 @@ def run(ctx):
     hfile = os.path.join(ctx.work, "hosts.ndjson")
     kit.write_ndjson(hfile, hists)
     results, crashes, stop = drive(ctx, "c18-hosts", hfile, os.path.join(ctx.work, "hosts_replay.ndjson"), len(hists))
-    for cid, pl, se in crashes:
+    for cid, pl, se, case in crashes:
         h = hists[cid - 1]
         ctx.violation("scan/hosts-withdrawn/crash/keep%dof%d" % (len(h["probe"]["keep"]), len(h["probe"]["before"])),
                       "the process hosting the proxy died: %d of %d hosts were withdrawn after %d calls, the client came back with its cursor (%s)"
@@ -208,7 +265,9 @@ def run(ctx):
             ctx.violation("scan/hosts-withdrawn/%s/keep%dof%d" % (kind_of(b), len(p["keep"]), len(p["before"])), b, {"history": h, "result": res})
         if not res.get("bad"):
             ctx.cov["traces_validated_against_impl"] += 1
-    # 4. cursor codec and client supplied cursors
+    # 4. free running: re-announcements of stored hosts during iterations, withdrawals during calls
+    concurrent(ctx, cfile)
+    # 5. cursor codec and client supplied cursors
     cur = os.path.join(ctx.work, "cursors.ndjson")
     rc, so, se = ctx.harness(["c18-cursors", "-out", cur], timeout=300, allow_fail=True)
     recs = kit.read_ndjson(cur) if os.path.exists(cur) else []
@@ -227,7 +286,7 @@ def run(ctx):
         ctx.case(key=["cursor", r["case"]], nontrivial=True)
         if not r["ok"]:
             ctx.violation("scan/cursor/" + r["case"].split(" ")[0], "%s: %s" % (r["case"], r.get("why")), r)
-    # 5. real key spaces
+    # 6. real key spaces
     ks = os.path.join(ctx.work, "keyspace.ndjson")
     ctx.harness(["c18-keyspace", "-out", ks, "-runs", "40" if ctx.thorough else "6"], timeout=900)
     for r in kit.read_ndjson(ks):
